@@ -291,6 +291,7 @@ def finish(ctx, module, level, rule, assumptions, extra_cov=None):
           % (pid, ctx.tier, ctx.seed, res.evals, res.nontrivial, len(res.states), res.transitions,
              len(reported), len(known_hit), wall))
     for name, p in ctx.parts.items():
+        top = sorted(p["worst"].items(), key=lambda kv: -kv[1])[:4]
         print("  part %-28s evals=%-9d nontrivial=%-9d viol=%-5d %.1fs worst=%s" % (
-            name, p["evaluations"], p["nontrivial"], p["violations"], p["wall_s"], p["worst"]))
+            name, p["evaluations"], p["nontrivial"], p["violations"], p["wall_s"], dict(top)))
     return status
